@@ -253,6 +253,9 @@ func genC12(rt *rapid.T) c12Case {
 	return c
 }
 
+// c12AllowList: the storage of the allow-list all handshakes of the process share.
+var c12AllowList = make([]string, 0, 8)
+
 func runC12(c c12Case) (status int, hijacked bool, err error) {
 	r := wsx.ValidRequest()
 	r.Host = c.Host
@@ -265,7 +268,14 @@ func runC12(c c12Case) (status int, hijacked bool, err error) {
 	for _, f := range c.Forwarded {
 		r.Header.Add(f[0], f[1])
 	}
-	opts := &websocket.AcceptOptions{OriginPatterns: c.Patterns, InsecureSkipVerify: c.Insecure}
+	// the application keeps ONE allow-list and edits it in place between handshakes: every
+	// handshake is decided by what the list holds at that moment
+	pats := c.Patterns
+	if n := len(c.Patterns); n > 0 && n <= cap(c12AllowList) {
+		pats = c12AllowList[:n]
+		copy(pats, c.Patterns)
+	}
+	opts := &websocket.AcceptOptions{OriginPatterns: pats, InsecureSkipVerify: c.Insecure}
 	if c.NilOpts {
 		opts = nil // the defaults: what an earlier handshake was allowed must not matter
 	}
@@ -345,7 +355,7 @@ func wildcardOverNonASCII(pattern, auth string) bool {
 
 func TestC12(t *testing.T) {
 	rec := evid.For("C12")
-	rec.Rule = "rapid draws (Host, Origin, OriginPatterns, InsecureSkipVerify) from an origin attack grammar: 12 host forms (names, IPv4, bracketed IPv6, ports, mixed case) x 26 origin families (very long authorised names and look-alikes of 13..600 bytes with one upper-case letter, several Origin lines of which the first is the one a Go handler sees, absent, same host, case variants, pattern-authorised, other host, userinfo tricks both ways, port mismatch, suffix/prefix/sub-domain look-alikes, host inside path/query/fragment, null, schemeless, opaque, whitespace, garbage, trailing dot, double @, backslash, empty authority) x 5 schemes x pattern sets with literals, * and ? and syntactically invalid or scheme-qualified patterns (which authorise nobody: patterns are matched against the origin's host), optional X-Forwarded-Host-style request headers naming the origin's host (which authorise nothing), or nil options after earlier handshakes of the process ran with InsecureSkipVerify. Oracle: independent authority extractor + glob matcher; one-sided security predicate (upgraded => authorised) plus the converse for origins the generator built as RFC 6454 serialisations. Non-trivial: Origin present and textually different from Host. distinct = hash(host, origin, patterns, flag)."
+	rec.Rule = "rapid draws (Host, Origin, OriginPatterns, InsecureSkipVerify) from an origin attack grammar: 12 host forms (names, IPv4, bracketed IPv6, ports, mixed case) x 26 origin families (very long authorised names and look-alikes of 13..600 bytes with one upper-case letter, several Origin lines of which the first is the one a Go handler sees, absent, same host, case variants, pattern-authorised, other host, userinfo tricks both ways, port mismatch, suffix/prefix/sub-domain look-alikes, host inside path/query/fragment, null, schemeless, opaque, whitespace, garbage, trailing dot, double @, backslash, empty authority) x 5 schemes x pattern sets with literals, * and ? and syntactically invalid or scheme-qualified patterns (which authorise nobody: patterns are matched against the origin's host), optional X-Forwarded-Host-style request headers naming the origin's host (which authorise nothing), or nil options after earlier handshakes of the process ran with InsecureSkipVerify; the pattern lists of all handshakes of the process live in one slice that is edited in place between handshakes. Oracle: independent authority extractor + glob matcher; one-sided security predicate (upgraded => authorised) plus the converse for origins the generator built as RFC 6454 serialisations. Non-trivial: Origin present and textually different from Host. distinct = hash(host, origin, patterns, flag)."
 	rapid.Check(t, func(rt *rapid.T) {
 		c := genC12(rt)
 		status, hijacked, _ := runC12(c)
